@@ -76,6 +76,7 @@ type Knobs struct {
 	PSoftSibling    int  // a soft group leaf gets a sibling whose constructor feeds that group (C11)
 	PReencode       int  // C15: probability that a function gets an alternative equivalent encoding
 	WrapAlt         bool // C15: the alternative encoding only wraps runs of consecutive parameters into (nested) dig.In objects, keeping their order
+	PSideKey        int  // a constructor body provides, while it runs, a constructor for a fresh key that later operations may consume
 	PSide           int  // a constructor / decorator body calls String, Visualize, Scope, Provide or Decorate (of an unrelated key) on the container
 	PReenter        int  // C02: probability that a constructor body calls back into the container
 	PNamedSlice     int  // a group parameter / slice-typed group result is declared with a named slice type
@@ -107,8 +108,10 @@ func DefaultKnobs() Knobs {
 }
 
 type gen struct {
-	plainDecl bool   // encode the leaves of declared objects as ordinary leaves (C15's alternative encoding)
-	focus     []MKey // keys of the last deliberately rejected registration
+	decoSlt   map[MKey]string // named slice variant a decorator declared a group with
+	reserved  map[MKey]bool   // keys that only a registration made from inside a body provides
+	plainDecl bool            // encode the leaves of declared objects as ordinary leaves (C15's alternative encoding)
+	focus     []MKey          // keys of the last deliberately rejected registration
 	t         *rapid.T
 	k         Knobs
 	m         *Model // predicted registrations
@@ -312,6 +315,11 @@ func (g *gen) drawParamLeaves(s, n int, pAvail int, allowGroups bool) []pleaf {
 			l.soft = g.pct(g.k.PSoft, lbl+"soft")
 			if g.pct(g.k.PNamedSlice, lbl+"nsl") {
 				l.slt = g.pickStr([]string{"A", "B"}, lbl+"nslv")
+			}
+			if v, ok := g.decoSlt[l.key]; ok && g.k.PNamedSlice > 0 && g.pct(50, lbl+"nslother") {
+				// a decorator declares this group with a named slice type:
+				// consume it with the other one
+				l.slt = map[string]string{"A": "B", "B": "A"}[v]
 			}
 		} else {
 			l.opt = g.pct(g.k.POpt, lbl+"opt")
@@ -616,7 +624,7 @@ func (g *gen) genProvide(s int) Op {
 			// single key: mostly a fresh one
 			var fresh []MKey
 			for _, k := range g.universe() {
-				if usedHere[k] {
+				if usedHere[k] || g.reserved[k] {
 					continue
 				}
 				taken := false
@@ -764,6 +772,52 @@ func (g *gen) genProvide(s int) Op {
 		f.Side = g.pickStr([]string{"string", "visualize", "scope", "provide", "decorate"}, "sidek")
 		f.SideS = g.pickScope("sides")
 	}
+	if f.Side == "" && g.pct(g.k.PSideKey, "sidekey") {
+		// a fresh key: provided nowhere, consumed by nobody so far
+		used := map[MKey]bool{}
+		for _, sc := range g.m.Scopes {
+			for _, c := range sc.Ctors {
+				for _, k := range c.Keys() {
+					used[k] = true
+				}
+				for _, l := range c.Leaves {
+					used[l.Key] = true
+				}
+			}
+			for _, d := range sc.DecoL {
+				for _, k := range d.Keys() {
+					used[k] = true
+				}
+				for _, l := range d.Leaves {
+					used[l.Key] = true
+				}
+			}
+		}
+		for _, k := range rl {
+			used[k.key] = true
+		}
+		for _, l := range pl {
+			used[l.key] = true
+		}
+		var fresh []MKey
+		for _, k := range g.universe() {
+			if !used[k] && !g.reserved[k] && !isIface(k.T) {
+				fresh = append(fresh, k)
+			}
+		}
+		if len(fresh) > 0 {
+			k := fresh[g.pick(len(fresh), "sidekeyk")]
+			if g.reserved == nil {
+				g.reserved = map[MKey]bool{}
+			}
+			g.reserved[k] = true
+			sf := g.newFn()
+			sf.R = g.encodeResults([]rleaf{{key: k}}, false)
+			f.Side, f.SideS, f.SideFn = "provide-key", g.pickScope("sidekeys"), sf
+			// later operations may ask for the key (a hole until the body ran)
+			g.m.AddCtor(NewMFn(sf, nil, KCtor, f.SideS))
+		}
+	}
 	if g.pct(g.k.PReenter, "reenter") {
 		// the body demands, from a random scope, its own first key or keys
 		// visible there
@@ -889,6 +943,10 @@ func (g *gen) genDecorate(s int) (Op, bool) {
 			}
 			if g.pct(g.k.PNamedSlice*3, lbl+"nsl") {
 				l.slt = g.pickStr([]string{"A", "B"}, lbl+"nslv")
+				if g.decoSlt == nil {
+					g.decoSlt = map[MKey]string{}
+				}
+				g.decoSlt[k] = l.slt
 			}
 			rl = append(rl, l)
 			if g.pct(g.k.PDecoSelf, lbl+"self") {
